@@ -31,6 +31,10 @@ CLAIMS = {
     'C12': ('Every shape pair up to 3x3 (4x4 thorough) x four operators: compatible pairs give the NumPy-broadcast result '
             'entry by entry with float operations uninterpreted (U), incompatible pairs must panic; Matrix/Vector forms.',
             'U', '§4 C12'),
+    'C19': ('bootstrap: count/length of resamples, every element is data[drawn index], RNG asked for an index in range, '
+            'every index reachable; jackknife: exactly the leave-one-out vectors in order; shuffle / shuffle_two on '
+            'length 1 (longer inputs: thorough tier, currently undecided by the solver); RNG = symbolic draws via the '
+            'alea shim (U, small-integer conversion facts).', 'U/B', '§4 C19'),
     'C16': ('Knot reproduction, in-segment line membership (division-free statement), Fill/Extrapolate/Panic behaviour on '
             'both sides of the range, checked-variant rejections, for 2..6 knots (R).', 'R', '§4 C16'),
     'C17': ('logistic range/monotonicity/reflection and logit inversion with exp/ln uninterpreted + instantiated axioms; '
